@@ -24,6 +24,11 @@ def gen_case(rng: random.Random, i: int, thorough: bool):
     d_yd = rng.choice([10.0, 25.0, 50.0, 100.0, 100.0, 200.0, 300.0, 500.0, rng.uniform(10, 700), rng.uniform(700, 1500)])
     prev = rng.choice([0.0, 0.0, 0.001, 0.02, -0.003])
     cfg = {"max_calc_step_size_feet": rng.choice([1.0, 2.0])} if not (thorough and rng.random() < 0.3) else {}
+    if i % 4 == 3:
+        # a small iteration cap and various accuracies: the search is cut short, the exit protocol (return only when the
+        # accuracy is met, error otherwise, never more iterations than the cap) is what is exercised
+        cfg["cMaxIterations"] = rng.choice([1, 2, 2, 3])
+        cfg["cZeroFindingAccuracy"] = rng.choice([5e-6, 1e-4, 1e-3, 1e-2])
     return {"shot": p, "d_yd": d_yd, "prev_zero_rad": prev, "cfg": cfg}
 
 
@@ -62,7 +67,9 @@ def run_case(case, tid):
     o = impl.outcome(calc.set_weapon_zero, shot, U.Yard(case["d_yd"]))
     rec.remove()
     z = rec.zcalls[-1] if rec.zcalls else None
-    lines = [{"tid": tid, "ev": "ZBegin", "reachable": bool(reachable), "maxIter": int(cfg.cMaxIterations)}]
+    # "does not fail for reachable targets" presumes the documented iteration budget: with a smaller cap only the protocol is checked
+    demand = bool(reachable and cfg.cMaxIterations >= 20)
+    lines = [{"tid": tid, "ev": "ZBegin", "reachable": demand, "maxIter": int(cfg.cMaxIterations)}]
     if z is not None:
         for it in z["iters"]:
             lines.append({"tid": tid, "ev": "ZIter", "errOK": bool(it["error"] <= cfg.cZeroFindingAccuracy)})
@@ -113,6 +120,36 @@ def run_case(case, tid):
             end["observed"] = True
             end["missOK"] = bool(miss <= bound * (1 + 1e-6) + 1e-9)
             info.update({"miss_ft": miss, "bound_ft": bound, "slope_rel": slope_rel})
+    if outcome == "ZeroErr" and last_elev is not None:
+        # Is the failure explained by the finder's sampling discontinuity?  The finder reads the trajectory where the loop
+        # stopped; when the elevation changes, that point jumps by one step, and the measured error jumps by
+        # (one step of travel) x (slope relative to the sight line).  If the last error is within that jump, the last
+        # candidate elevation does satisfy the statement's accuracy bound at the aim point - the finder just cannot see it.
+        try:
+            probe2 = shots.build_shot(dict(p, zero_rad=last_elev - look, rel_rad=0.0))
+            rec3 = integ.Recorder().install()
+            try:
+                calc.fire(probe2, U.Foot(X + 3 * max_step), U.Foot(X))
+            except m.RangeError:
+                pass
+            finally:
+                rec3.remove()
+            its = rec3.calls[-1]["iters"]
+            tanl, cosl = math.tan(look), math.cos(look)
+            perp = lambda r_: (r_.y - r_.x * tanl) * cosl
+            si = next((j for j, (a, b) in enumerate(zip(its, its[1:])) if a["pre_r"].x <= X <= b["pre_r"].x), None)
+            if si is not None:
+                sl, dxm = 0.0, 0.0
+                for j in range(si, min(si + 3, len(its) - 1)):
+                    pa, pb = its[j]["pre_r"], its[j + 1]["pre_r"]
+                    if pb.x > pa.x:
+                        sl = max(sl, abs(perp(pb) - perp(pa)) / (pb.x - pa.x))
+                        dxm = max(dxm, pb.x - pa.x)
+                jump = max(max_step, max_step / 2.0 + dxm) * sl / max(cosl, 1e-9)      # vertical error, as the finder measures it
+                info["sampling_jump_ft"] = jump
+                info["error_within_sampling_jump"] = bool(z["iters"][-1]["error"] <= jump * 1.05)
+        except Exception as ex:  # noqa
+            info["sampling_jump_error"] = type(ex).__name__
     lines.append(end)
     info["end"] = end
     return lines, info
@@ -151,17 +188,20 @@ def run(chk: core.Check, replay=None) -> None:
             chk.stratum("miss_observed")
         if case["prev_zero_rad"] != 0.0:
             chk.stratum("previous_zero_nonzero")
+        if case["cfg"].get("cMaxIterations"):
+            chk.stratum("small_iteration_cap_" + info["outcome"].split(":")[0])
     fails = core.validate_trace(chk, "Trace_ZeroFinder", lines, "set_weapon_zero calls")
     chk.traces += n
     for tid, clause in fails:
         info = infos[tid]
         look = abs(info["case"]["shot"]["look_deg"])
         chk.violation(clause, {"look_class": "level" if look < 1 else ("mild" if look <= 10 else ("steep" if look < 40 else "very_steep")),
-                               "outcome": info["outcome"], "reachable": info["reachable"], "arc_class": info["arc_class"]}, info)
+                               "outcome": info["outcome"], "reachable": info["reachable"], "arc_class": info["arc_class"],
+                               "error_within_sampling_jump": info.get("error_within_sampling_jump")}, info)
     chk.sample({k: v for k, v in infos[1].items()})
     chk.sample({"trace_lines": lines[:4]})
     chk.require_strata(["outcome_Returned", "outcome_RangeErr", "reachable", "unreachable", "look_level", "look_mild", "look_steep",
-                        "miss_observed", "previous_zero_nonzero"])
+                        "miss_observed", "previous_zero_nonzero", "small_iteration_cap_ZeroErr"])
     chk.exhaustive = False
     chk.rule.append("seeded un-canted shots (G1/G7/.. tables, 600-4000 fps, sight heights -2..6 in, look angles 0, +-5..+-59 deg, 0-2 "
                     "winds, previously stored zero 0 / small / large / negative) x zero distances 10 yd - 1500 yd, plus unreachable "
